@@ -48,6 +48,7 @@ def dispatch (line : String) : String :=
     | "e2ef" => Drivers.Pipeline.handleFollow args
     | "jsontext" => Drivers.JsonText.handle args
     | "f64parse" => Drivers.F64Parse.handle args
+    | "f64arith" => Drivers.F64Arith.handle args
     | "jsondoc" => Drivers.JsonDocD.handle args
     | _ => "unknown-kind"
   | _ => "bad-line"
